@@ -38,10 +38,12 @@ OpEnd(t) == /\ inop /\ inop' = FALSE /\ tStable' = t
 
 \* the loop read the file: it saw a content the file held since its previous read
 Saw(x) == x \in since \/ torn
-Forget == /\ since' = IF inop THEN since ELSE {file}
-          /\ torn' = (inop /\ torn)
+\* after a read that returned x: x stays possible (an operation may have completed between the
+\* read and its log line), everything older than the current file is forgotten
+Forget(x) == /\ since' = (IF inop THEN since ELSE {file}) \cup {x}
+             /\ torn' = (inop /\ torn)
 
-Reconcile(fp) == /\ Saw(fp) /\ Forget
+Reconcile(fp) == /\ Saw(fp) /\ Forget(fp)
                  /\ win' = (win /\ cbp)        \* the first read after the callback's closes the window
                  /\ UNCHANGED <<file, inop, evaluated, loaded, cbp, shaky, tStable, tCb, bound>>
 
@@ -51,13 +53,17 @@ Reconcile(fp) == /\ Saw(fp) /\ Forget
 \* changed under it) the application does not hold fp, and evaluating fp again is right;
 \* and when a file operation overlapped the callback window the loop cannot know what was
 \* read (the file did not "stay unchanged"), so evaluating fp once more is allowed.
+\* The callback runs "for that content": the fingerprint it is started for is one the file has
+\* held since the loop's last read -- not a fingerprint remembered from before a change the loop
+\* has already seen reverted.
 Callback(fp) == /\ ~cbp /\ (fp # evaluated \/ loaded # evaluated \/ shaky)
+                /\ Saw(fp)
                 /\ evaluated' = fp /\ cbp' = TRUE /\ win' = TRUE /\ shaky' = inop
                 /\ UNCHANGED <<file, since, torn, inop, loaded, tStable, tCb, bound>>
 
 \* the callback read the file
 CbRead(x, t) == /\ cbp /\ cbp' = FALSE
-                /\ Saw(x) /\ Forget
+                /\ Saw(x) /\ Forget(x)
                 /\ loaded' = x /\ tCb' = t
                 /\ UNCHANGED <<file, inop, evaluated, win, shaky, tStable, bound>>
 
